@@ -20,7 +20,7 @@ LEVEL = "exploration"
 RULE = ("random well-typed EEMS models (3-18 commands over all built-in data commands, CSV tables of 2-14 rows with int and float "
         "columns and missing cells; a ledger forces every command into the sample) x {original, reversed, k random permutations, "
         "metadata variant, extra-consumer variant}; distinct by (sorted command multiset up to 8, depth, max fan-out, table dtype mix, has-missing)")
-REQUIRED_COUNTERS = ["numpy_scalar_parameter_models", "fuzzy_reads_compared", "node_postconditions", "read_results_compared", "variant_runs", "shared_results_compared_bit_exact", "same_path_reruns", "netcdf_models", "csv_models", "eems2_histories"]
+REQUIRED_COUNTERS = ["reruns_after_a_repaired_failure", "numpy_scalar_parameter_models", "fuzzy_reads_compared", "node_postconditions", "read_results_compared", "variant_runs", "shared_results_compared_bit_exact", "same_path_reruns", "netcdf_models", "csv_models", "eems2_histories"]
 
 
 def post_merge(counters, tier):
@@ -273,6 +273,40 @@ def run_case(ctx, case):
                 ctx.fail("variant:api-numpy-scalar-parameters:fails-%s" % type(res).__name__, {"error": str(res)[:300], "args": [repr(c["args"])[:120] for c in npm["commands"] if c["cmd"] not in ("EEMSRead",)][:4]})
                 return
     base_d = {n: arr.digest(a) for n, a in base.items()}
+    if case["rseed"] % 4 == 2 and model.get("libs", "csv") == "csv":
+        # a first run fails inside a reader (a column it needs is not in the file yet); the file is completed; the same program
+        # object is run again: its results are those of the model
+        from mpilot.program import Program
+        d3 = ctx.scratch()
+        reads = [c for c in model["commands"] if c["cmd"] == "EEMSRead"]
+        col = reads[case["rseed"] % len(reads)]["args"]["InFieldName"]
+        t2 = dict(model["table"])
+        t2["cols"] = {(k + "_not_yet" if k == col else k): v for k, v in model["table"]["cols"].items()}
+        models.write_table(t2, d3)
+        text3, _ = models.to_text(model)
+        try:
+            prog3 = Program.from_source(text3, libraries=models.model_libs(model), working_dir=d3)
+            first = None
+            try:
+                prog3.run()
+            except Exception as e:
+                first = e
+            if first is not None:
+                models.write_table(model["table"], d3)
+                ctx.count("reruns_after_a_repaired_failure")
+                try:
+                    prog3.run()
+                except Exception as e:
+                    ctx.fail("rerun-after-repaired-failure:fails-%s" % type(e).__name__, {"first_error": type(first).__name__, "error": str(e)[:300], "text": text3[:800]})
+                    return
+                for n, dg in base_d.items():
+                    r3 = prog3.commands[n]._result if n in prog3.commands else None
+                    if not isinstance(r3, numpy.ndarray) or arr.digest(r3) != dg:
+                        ctx.fail("rerun-after-repaired-failure:result-differs", {"result": n, "command": [c["cmd"] for c in model["commands"] if c["result"] == n], "first_error": type(first).__name__,
+                                                                                  "got": arr.describe(r3, 8) if isinstance(r3, numpy.ndarray) else repr(r3)[:80], "want": arr.describe(base[n], 8)})
+                        return
+        except Exception as e:
+            ctx.dontcare("rerun case: load raises %s" % type(e).__name__)
     for tag, vm in variants:
         res = _run_variant(ctx, vm, ctx.scratch(), tag, check_nodes=(tag in ("reversed", "extra-consumers")))
         if res in ("failed", "undefined"):
